@@ -258,8 +258,10 @@ func execC01(t *testing.T, prog *hx.Program, dec *simrt.Decider, verbose bool) *
 				c.mutOps++
 			case "trunc":
 				lo := h.hw + 1
-				if lo < h.oldest() || len(h.model) == 0 {
-					lo = 0
+				if len(h.model) == 0 {
+					lo = h.next
+				} else if lo < h.oldest() {
+					lo = h.oldest()
 				}
 				if lo > h.next {
 					break
@@ -362,10 +364,4 @@ func execC01(t *testing.T, prog *hx.Program, dec *simrt.Decider, verbose bool) *
 		oc.Counters["probe.live_readers"] = c.nrd
 	}
 	return oc
-}
-
-func TestVerifWorker(t *testing.T) {
-	hx.WorkerMain(t, map[string]*hx.Prop{
-		"C01": {ID: "C01", Gen: genC01, Engine: execC01},
-	})
 }
